@@ -367,9 +367,14 @@ Definition item_eqb (a b : item) : bool :=
 
 (* the ping result gets an exception: the time-out helper wakes up (and finds the result unsuccessful and, after
    _Shutdown, the sink inactive), an _OpenImpl blocked on it becomes runnable *)
+Definition wake_fail (o : option ostage) : option ostage :=
+  match o with Some OPingWait => Some (OWoken false) | _ => o end.
+
 Definition ar_fail (s : st) : st :=
   if par s then
-    set_opn (set_ping_dl s None) (match opn s with Some OPingWait => Some (OWoken false) | o => o end)
+    {| now := now s; cst := cst s; opn := wake_fail (opn s); tagmap := tagmap s; seen := seen s; expired := expired s;
+       queue := queue s; sndl := sndl s; rcv := rcv s; pending := pending s; par := par s; ping_dl := None; pl := pl s;
+       lastw := lastw s; lastping := lastping s |}
   else s.
 
 (* MuxSocketTransportSink._Shutdown(reason, fault), then the ThriftMux override: if self._ping_ar: set_exception *)
@@ -377,7 +382,9 @@ Definition shutdown (fault : bool) (s : st) : st * list ev :=
   match cst s with
   | Closed => (ar_fail s, [])
   | _ =>
-      (ar_fail (set_pl (set_rcv (set_sndl (set_queue (set_tagmap (set_cst s Closed) []) []) SDead) RDead) PNone),
+      ({| now := now s; cst := Closed; opn := if par s then wake_fail (opn s) else opn s; tagmap := []; seen := seen s;
+          expired := expired s; queue := []; sndl := SDead; rcv := RDead; pending := pending s; par := par s;
+          ping_dl := if par s then None else ping_dl s; pl := PNone; lastw := lastw s; lastping := lastping s |},
        (if fault then [Faulted] else []) ++ map (fun c => Post c KClientErr) (tagmap s) ++ [ShutdownAt (now s)])
   end.
 
@@ -407,7 +414,9 @@ Definition tick_ok (s : st) (t : Z) : bool :=
 
 (* _SendPingMessage: new result object, ping queued, helper spawned (it blocks in ar.wait(5) at once) *)
 Definition send_ping (s : st) : st * list ev :=
-  (set_lastping (set_ping_dl (set_par (set_queue s (queue s ++ [IPing])) true) (Some (now s + ping_timeout))) (now s),
+  ({| now := now s; cst := cst s; opn := opn s; tagmap := tagmap s; seen := seen s; expired := expired s;
+      queue := queue s ++ [IPing]; sndl := sndl s; rcv := rcv s; pending := pending s; par := true;
+      ping_dl := Some (now s + ping_timeout); pl := pl s; lastw := lastw s; lastping := now s |},
    [PingSent (now s)]).
 
 Definition step (s : st) (l : label) : option (st * list ev) :=
@@ -517,7 +526,9 @@ Definition step (s : st) (l : label) : option (st * list ev) :=
       end
   | MPingTimeout =>
       match ping_dl s with
-      | Some d => if d =? now s then Some (shutdown true (ar_fail s)) else None
+      | Some d =>
+          (* the helper took the result object at its start; it is still _ping_ar (an answered ping wakes the helper) *)
+          if (d =? now s) && par s then Some (shutdown true s) else None
       | None => match cst s with Closed => Some (s, []) | _ => None end   (* woken by _Shutdown: finds the sink inactive *)
       end
   | MClose => Some (shutdown false s)
